@@ -19,6 +19,41 @@ import (
 func emitSkeleton(pkgName string, fset *token.FileSet, files []*ast.File, info *types.Info) {
 	for _, f := range files {
 		for _, d := range f.Decls {
+			if gd, ok := d.(*ast.GenDecl); ok && gd.Tok != token.IMPORT {
+				// constants, package-level variables and types (field types, initial values, iota order) are part of what was modelled
+				file := fset.Position(gd.Pos()).Filename
+				if i := strings.LastIndex(file, "/"); i >= 0 {
+					file = file[i+1:]
+				}
+				for k, sp := range gd.Specs {
+					name := ""
+					switch x := sp.(type) {
+					case *ast.TypeSpec:
+						name = "type " + x.Name.Name
+						x.Doc, x.Comment = nil, nil
+						if st, ok := x.Type.(*ast.StructType); ok {
+							for _, fl := range st.Fields.List {
+								fl.Doc, fl.Comment = nil, nil
+							}
+						}
+					case *ast.ValueSpec:
+						names := make([]string, len(x.Names))
+						for i, n := range x.Names {
+							names[i] = n.Name
+						}
+						name = strings.ToLower(gd.Tok.String()) + " " + strings.Join(names, ",")
+						x.Doc, x.Comment = nil, nil
+					}
+					var buf bytes.Buffer
+					(&printer.Config{Mode: printer.RawFormat}).Fprint(&buf, fset, sp)
+					text := strings.Join(strings.Fields(buf.String()), " ")
+					if gd.Tok == token.CONST {
+						text = fmt.Sprintf("[%d] %s", k, text) // position in the group: iota
+					}
+					fmt.Printf("SKEL\t%s\t%s:%s\t%s\n", pkgName, file, name, text)
+				}
+				continue
+			}
 			fd, ok := d.(*ast.FuncDecl)
 			if !ok || fd.Body == nil {
 				continue
